@@ -326,7 +326,7 @@ func c17Gen(rng *gen.Rng, population string) *c17Hist {
 			burst--
 			p = burstPath
 		}
-		render := rng.Pick([]string{"top", "direct", "direct", "direct", "funcparam", "funcglobal", "funcdirect", "nested", "nested", "if", "ifdirect", "for", "fordirect", "shared", "shared", "unused", "elsedirect", "scopes", "reexec", "paramglobal", "untilexists", "nottaken", "multiret", "globalupdate", "afterchain", "flagafter"})
+		render := rng.Pick([]string{"top", "direct", "direct", "direct", "funcparam", "funcglobal", "funcdirect", "nested", "nested", "if", "ifdirect", "for", "fordirect", "shared", "shared", "unused", "elsedirect", "scopes", "reexec", "paramglobal", "untilexists", "nottaken", "multiret", "globalupdate", "afterchain", "flagafter", "loopswitch"})
 		if inBurst {
 			render = rng.Pick([]string{"direct", "direct", "top"})
 		}
@@ -732,6 +732,15 @@ func (h *c17Hist) render(seed uint64) []*c17Segment {
 			}
 			return fmt.Sprintf("func fi%d(q%d string) string {\nv%d := q%d + \"!\"\nw%d := v%d\nreturn w%d\n}\nfunc fn%d(%s) {\nu%d := fi%d(\"k\")\n%sprint(\"<<N>>\" + u%d)\n}\nfn%d(%s)\n",
 				id, id, id, id, id, id, id, id, strings.Join(ps, ", "), id, id, body, id, id, strings.Join(as, ", "))
+		case "loopswitch":
+			// the operation follows, in a loop body, a switch that holds a continue (taken in the first
+			// round) and a break of its own (never reached): it runs in the rounds 1 and 2 only
+			var g strings.Builder
+			for _, p := range params {
+				fmt.Fprintf(&g, "%s := %s\n", p[0], p[1])
+			}
+			fmt.Fprintf(&g, "for it%d := 0; it%d < 3; it%d++ {\nswitch it%d {\ncase 0:\ncontinue\ncase 7:\nbreak\n}\n%s}\n", id, id, id, id, body)
+			return g.String()
 		case "afterchain":
 			// the operation FOLLOWS an if / else-if / else chain (or a switch with default) whose
 			// first and last branches leave the function, while the branch that is taken does not
@@ -978,6 +987,13 @@ func (h *c17Hist) render(seed uint64) []*c17Segment {
 				selfContained := func(o string) bool { return o == "literal" || o == "call" || o == "" }
 				hoistOK = selfContained(op.POrigin) && selfContained(op.COrigin) && op.Kind != "appendVar"
 				loopN = 1
+				if op.Render == "loopswitch" {
+					if op.COrigin == "readof" {
+						op.Render = "direct" // (an inline read(q) as content would change from round to round)
+					} else {
+						loopN = 2
+					}
+				}
 				if op.Count > 1 && (op.Render == "for" || op.Render == "fordirect") && op.COrigin != "readof" {
 					loopN = op.Count // (an inline read(q) as content would change from iteration to iteration)
 					if len(op.Content) > 4096 {
